@@ -173,6 +173,8 @@ Record pool_req := {
   q_from   : Z;             (* attempt whose backend response the client gets; -1 none / gateway-made *)
   q_plen   : Z;             (* payload size of the response the client gets *)
   q_bodies : Z;             (* attempts that received the complete request body *)
+  q_cbt    : Z;             (* breaker window total right after this request (-1 = no breaker) *)
+  q_cbf    : Z;             (* breaker window failures right after this request *)
   q_gaps   : list Z
 }.
 
@@ -258,9 +260,27 @@ Fixpoint forall2b {A B} (f : A -> B -> bool) (l1 : list A) (l2 : list B) : bool 
   | _, _ => false
   end.
 
+(** breaker window totals after each request, from the model's records *)
+Fixpoint cum_records (outs : list pool_out) (t f : Z) : list (Z * Z) :=
+  match outs with
+  | [] => []
+  | o :: r =>
+      let t' := t + Z.of_nat (List.length (po_records o)) in
+      let f' := f + count_true (po_records o) in
+      (t', f') :: cum_records r t' f'
+  end.
+
+Definition corr_cum (c : pool_case) : bool :=
+  if k_cb c then
+    let pl := pool_of c in
+    list_eqb Zeqb_pair
+      (cum_records (map (fun q => pool_handle pl true (request_of q)) (k_reqs c)) 0 0)
+      (map (fun q => (q_cbt q, q_cbf q)) (k_reqs c))
+  else forallb (fun q => (q_cbt q =? -1) && (q_cbf q =? -1)) (k_reqs c).
+
 Definition corr_pool (c : pool_case) : bool :=
   let '(outs, cb) := pool_model c in
-  forall2b corr_req (k_reqs c) outs && Zeqb_pair cb (k_cbt c, k_cbf c).
+  forall2b corr_req (k_reqs c) outs && Zeqb_pair cb (k_cbt c, k_cbf c) && corr_cum c.
 
 (** the property on the implementation's trace *)
 Definition pscript_at (s : list (Z * Z)) (i : Z) : Z * Z :=
@@ -309,9 +329,20 @@ Definition prop_req (c : pool_case) (q : pool_req) : bool :=
   (Z.of_nat (List.length (q_gaps q)) =? n - 1) &&
   ge_prefix (q_gaps q) (lows p (Z.to_nat (n - 1))).
 
+(** one breaker record per client request, checked after EVERY request: the window total is
+    the number of client requests so far, the failures those that ended with a non-empty
+    result - whatever the number of attempts, however slow the request was *)
+Fixpoint prop_cum (cb : bool) (qs : list pool_req) (t f : Z) : bool :=
+  match qs with
+  | [] => true
+  | q :: r =>
+      let f' := f + (if q_res q =? 0 then 0 else 1) in
+      (if cb then (q_cbt q =? t + 1) && (q_cbf q =? f') else true) && prop_cum cb r (t + 1) f'
+  end.
+
 Definition prop_pool (c : pool_case) : bool :=
   if k_retry c && negb (validb (k_pol c)) then true else
-  forallb (prop_req c) (k_reqs c) &&
+  forallb (prop_req c) (k_reqs c) && prop_cum (k_cb c) (k_reqs c) 0 0 &&
   (if k_cb c
    then (k_cbt c =? Z.of_nat (List.length (k_reqs c))) &&
         (k_cbf c =? Z.of_nat (List.length (filter (fun q => negb (q_res q =? 0)) (k_reqs c))))
@@ -348,13 +379,31 @@ Definition model_pool_req (pl : pool) (x : bool * list (Z * Z) * Z * (nat -> Z) 
      q_calls := Z.of_nat n;
      q_res := fst (presult_code (po_result out)); q_status := snd (presult_code (po_result out));
      q_from := fst (visible_code (po_visible out)); q_plen := snd (visible_code (po_visible out));
-     q_bodies := Z.of_nat n;
+     q_bodies := Z.of_nat n; q_cbt := -1; q_cbf := -1;
      q_gaps := firstn (n - 1) (waits_of (handler_trace pl rq)) |}.
 
 Definition model_pool_rq (x : bool * list (Z * Z) * Z * (nat -> Z) * (nat -> bool)) : request :=
   let '(stream, script, cancel, draws, pick) := x in
   {| rq_stream := stream; rq_script := tscript_of script; rq_cancel := cancel_of cancel;
      rq_draws := draws; rq_pick := pick |}.
+
+Definition set_cum (q : pool_req) (a b : Z) : pool_req :=
+  {| q_stream := q_stream q; q_script := q_script q; q_cancel := q_cancel q; q_clen := q_clen q;
+     q_calls := q_calls q; q_res := q_res q; q_status := q_status q; q_from := q_from q;
+     q_plen := q_plen q; q_bodies := q_bodies q; q_cbt := a; q_cbf := b; q_gaps := q_gaps q |}.
+
+(** the model's requests with the running breaker totals (from the model's own records) *)
+Fixpoint model_pool_reqs (pl : pool) (xs : list (bool * list (Z * Z) * Z * (nat -> Z) * (nat -> bool)))
+         (t f : Z) : list pool_req :=
+  match xs with
+  | [] => []
+  | x :: r =>
+      let out := pool_handle pl true (model_pool_rq x) in
+      let t' := t + Z.of_nat (List.length (po_records out)) in
+      let f' := f + count_true (po_records out) in
+      set_cum (model_pool_req pl x) (if pl_cb pl then t' else -1) (if pl_cb pl then f' else -1)
+        :: model_pool_reqs pl r t' f'
+  end.
 
 Definition model_pool_case (retry : bool) (p : policy) (timeout : Z) (cb : bool) (fcodes : list Z)
            (xs : list (bool * list (Z * Z) * Z * (nat -> Z) * (nat -> bool))) : pool_case :=
@@ -363,7 +412,7 @@ Definition model_pool_case (retry : bool) (p : policy) (timeout : Z) (cb : bool)
   let pl := pool_of c0 in
   let outs := pool_run pl (map model_pool_rq xs) in
   {| k_retry := retry; k_pol := p; k_timeout := timeout; k_cb := cb; k_fcodes := fcodes;
-     k_reqs := map (model_pool_req pl) xs;
+     k_reqs := model_pool_reqs pl xs 0 0;
      k_cbt := if cb then Z.of_nat (total_records outs) else -1;
      k_cbf := if cb then Z.of_nat (failed_records outs) else -1 |}.
 
